@@ -116,7 +116,10 @@ func (c *controlConn) heartBeat() {
 		case error:
 			goto reconn
 		default:
-			panic(fmt.Sprintf("gocql: unknown frame in response to options: %T", resp))
+			// a frame that is neither SUPPORTED nor ERROR is a protocol violation by the peer:
+			// treat it like a failed heartbeat instead of crashing the process
+			c.session.logger.Printf("gocql: control connection: unknown frame in response to options: %T\n", resp)
+			goto reconn
 		}
 
 	reconn:
